@@ -81,7 +81,7 @@ class CCodeMapper(SimplifyingSortingStringifyMapper):
         self.cse_prefix = cse_prefix
 
         self.cse_to_name = {cse: name for name, cse in cse_name_list}
-        self.cse_names = {cse for name, cse in cse_name_list}
+        self.cse_names = {name for name, cse in cse_name_list}
         self.cse_name_list = cse_name_list[:]
 
         self.complex_constant_base_type = complex_constant_base_type
@@ -89,9 +89,15 @@ class CCodeMapper(SimplifyingSortingStringifyMapper):
     def copy(self, cse_name_list=None):
         if cse_name_list is None:
             cse_name_list = self.cse_name_list
-        return CCodeMapper(self.reverse,
+        result = CCodeMapper(self.reverse,
                 self.cse_prefix, self.complex_constant_base_type,
                 cse_name_list)
+        # cse_name_list holds (name, text) pairs: the copy also needs to know
+        # which expressions these names stand for, or it assigns them again.
+        result.cse_to_name.update(
+                (cse, name) for cse, name in self.cse_to_name.items()
+                if name in result.cse_names)
+        return result
 
     def copy_with_mapped_cses(self, cses_and_values):
         return self.copy(self.cse_name_list + cses_and_values)
@@ -218,7 +224,7 @@ class CCodeMapper(SimplifyingSortingStringifyMapper):
             self.cse_to_name[expr.child] = cse_name
             self.cse_names.add(cse_name)
 
-            assert len(self.cse_names) == len(self.cse_to_name)
+            assert self.cse_names.issuperset(self.cse_to_name.values())
 
         return cse_name
 
